@@ -76,6 +76,17 @@ CHECKS = {
          "(Model/Validate.v) is tied to codegen-v2.ts on every run by differential correspondence; the spec side (no_extra) is "
          "evaluated on the implementation's own answers to search for a failing input.",
          "Values are finite trees without getters/proxies, integer-like or duplicate keys; custom formats are pure."),
+ "C01": ("Theorem C01_printed_validator_means_the_IR (Model/Printer.v = print_runtype, Model/Validate.v, Model/Ir.v): for every IR type, "
+         "named environment, value and fuels at which both evaluations end, the validator tree the printer emits answers exactly "
+         "rmember (membership of the IR type under beff's conventions), for every tree the printer builds structurally — all "
+         "constructors except template-literal patterns, intersections, tuples and the two dispatch forms of unions; the two dispatch "
+         "forms are proved to accept exactly what the plain union of their members accepts (C01_literal_set_dispatch_is_union, "
+         "C01_discriminator_dispatch_is_union). The printer model is tied to printer.rs by comparing its output on the compiler's own "
+         "IR with the tree dumped from the emitted module; the frontend (TypeScript -> IR) is not modelled and is judged on generated "
+         "programs by a reference membership of the source type and by rmember of the IR in Coq, on type-directed values.",
+         "Partial: template-literal patterns (regex semantics), intersections and tuples (both have known findings) and the link "
+         "'members of a dispatch node = flattened union' are outside the theorem and covered by the search; object types are read as "
+         "'non-null objects' (beff's reading), ${number} as TypeScript's in the reference and as the emitted pattern in rmember."),
  "C14": ("Theorem C14_every_rebuild_answers_like_a_fresh_process: for every parse and extract (the compiler proper is a parameter), "
          "every initial disk and every finite history of updates and rebuilds, each rebuild of the session model (thread-local cache, "
          "get_or_fetch_file, update_file_content_inner) returns what a fresh process returns for the disk at that moment — by the "
